@@ -28,28 +28,43 @@ def env_base():
 
 
 CONFIGS = {
-    # name: (cargo features of the props crate)
+    # name: (cargo features of the props crate); the default cargo profile is the harness' "release"
+    # (optimised, debug assertions and overflow checks ON)
     "std": "std,dimcheck",
     "std-nocheck": "std",
     "libm": "alloc,libm,dimcheck",
     "libm-nocheck": "alloc,libm",
     "micromath": "alloc,micromath,dimcheck",
     "micromath-nocheck": "alloc,micromath",
+    # the same with debug assertions and overflow checks compiled OUT (profile "relna"): what a user's
+    # `cargo build --release` produces; debug_assert! and cfg(debug_assertions) code is inactive
+    "std-rel": "std,dimcheck",
+    "std-rel-nocheck": "std",
 }
+PROFILE = {"std-rel": "relna", "std-rel-nocheck": "relna"}
+ALL_CONFIGS = list(CONFIGS)
 
 
 def build_props(config="std"):
     """Build the rrtk-mc binary for one feature configuration. Returns the binary path."""
     feats = CONFIGS[config]
     tdir = os.path.join(TARGET, config)
-    cmd = ["cargo", "build", "--release", "--offline", "-p", "props", "--features", feats]
+    prof = PROFILE.get(config, "release")
+    cmd = ["cargo", "build", "--profile", prof, "--offline", "-p", "props", "--features", feats]
     e = env_base()
     e["CARGO_TARGET_DIR"] = tdir
     t0 = time.time()
     p = subprocess.run(cmd, cwd=HARNESS, env=e, stdout=subprocess.PIPE, stderr=subprocess.STDOUT, text=True)
     if p.returncode != 0:
         raise Machinery("harness build failed (config %s):\n%s" % (config, p.stdout[-4000:]))
-    return os.path.join(tdir, "release", "rrtk-mc"), time.time() - t0
+    return os.path.join(tdir, prof, "rrtk-mc"), time.time() - t0
+
+
+def build_many(configs):
+    """build several configurations concurrently (separate target directories); errors surface as Machinery"""
+    import concurrent.futures
+    with concurrent.futures.ThreadPoolExecutor(max_workers=len(configs)) as ex:
+        return dict(zip(configs, [r[0] for r in ex.map(build_props, configs)]))
 
 
 def run_engine(binary, pid, tier, extra_env=None, tag=""):
